@@ -60,7 +60,7 @@ def family_small(n, seed, with_ad=True):
     return out
 
 
-def sem_check(ctx, P, variants, level="model_checking", timeout=60, extra_cov=None, strict_instances=True,
+def sem_check(ctx, P, variants, level="exploration", timeout=60, extra_cov=None, strict_instances=True,
               tol=1e-9, post=None, sig_extra=None, write=True, skip=None):
     """Judge programs P with TLC, run every variant on the real system, compare.
 
@@ -167,7 +167,7 @@ def sem_replay(ctx, path):
             sig.update({"error": r["error"], "site": r.get("site", ""), "chain": r.get("chain", "")})
         sig.update(semcheck.triggers(p))
         ctx.violation(sig, detail, case)
-    ctx.write_evidence("model_checking", {"evaluations": 1, "distinct_nontrivial": 0, "rule": "replay of one case",
+    ctx.write_evidence("exploration", {"evaluations": 1, "distinct_nontrivial": 0, "rule": "replay of one case",
                                           "samples": [case["kwargs"].get("text", "")]})
 
 
